@@ -229,11 +229,84 @@ fn judge(sc: &Scenario, out: &Outcome, crash_images: &AtomicU64) -> Vec<(String,
     v
 }
 
+// ---------------------------------------------------------------------------------------------
+// the node's own wiring: a client's reply comes only after its update is in fsynced WAL bytes
+// ---------------------------------------------------------------------------------------------
+
+/// A real ReplicatedShardedState with a real WAL actor (always-fsync) attached executes commands one after another; at
+/// the instant each reply arrives, a crash (files cut to their last successful sync) must still recover the update
+/// of that command and of every earlier one.
+fn node_wiring_case(gce: usize, rotate_every: usize, n: usize) -> Result<u64, (String, String)> {
+    use redis_sim::production::ReplicatedShardedState;
+    use redis_sim::replication::ReplicationConfig;
+    let sc = Scenario { gce, rotate_every, writers: vec![], faults: vec![], advances: 0, shutdown: false, truncate: None, retry: false };
+    let rt = tokio::runtime::Builder::new_current_thread().enable_time().start_paused(true).build().unwrap();
+    rt.block_on(async {
+        let store = VWalStore::new();
+        let cfg = WalConfig {
+            enabled: true,
+            wal_dir: "/nonexistent".into(),
+            fsync_policy: FsyncPolicy::Always,
+            max_file_size: sc.max_file_size(),
+            group_commit_max_entries: gce,
+            group_commit_max_wait: WAIT,
+            truncation_check_interval: Duration::from_secs(3600),
+        };
+        let desc = format!("node with an always-fsync WAL (group commit {gce}, rotation {}), {n} commands one after another", match rotate_every { 0 => "never", 1 => "after every entry", _ => "after every 2nd entry" });
+        let (handle, _join) = spawn_wal_actor(store.clone(), cfg).map_err(|e| ("node-wiring: spawn failed".to_string(), format!("{desc}: {e}")))?;
+        let mut node = ReplicatedShardedState::new(ReplicationConfig { enabled: true, replica_id: 1, ..Default::default() });
+        node.set_wal_handle(handle);
+        let mut images = 0u64;
+        let mut written: Vec<String> = Vec::new();
+        for i in 0..n {
+            let (key, line) = match i % 4 {
+                0 => (format!("k{i}"), format!("SET k{i} v{i}")),
+                1 => (format!("h{i}"), format!("HSET h{i} f v{i}")),
+                2 => (format!("n{i}"), format!("INCRBY n{i} {i}")),
+                _ => (format!("k{}", i - 3), format!("DEL k{}", i - 3)),
+            };
+            let cmd = vh::resp::parse(&vh::resp::line(&line)).expect("parses");
+            let reply = node.execute(cmd).await;
+            if vh::resp::is_err(&reply) {
+                return Err(("node-wiring: command failed".to_string(), format!("{desc}: `{line}` replied {}", vh::resp::show(&reply))));
+            }
+            written.push(key);
+            // the reply is in the client's hands now: crash here
+            let log = store.log();
+            let img = VWalStore::crash_image(&log, log.len());
+            images += 1;
+            let rot = WalRotator::new(VWalStore::from_image(&img), 1 << 30).map_err(|e| ("node-wiring: recovery failed".to_string(), format!("{desc}: {e}")))?;
+            let entries = rot.recover_all_entries().map_err(|e| ("node-wiring: recovery failed".to_string(), format!("{desc}: {e}")))?;
+            let keys: BTreeSet<String> = entries.iter().filter_map(|e| e.to_delta().ok()).map(|d| d.key).collect();
+            if let Some(lost) = written.iter().find(|k| !keys.contains(*k)) {
+                return Err((
+                    format!("node-wiring: replied-before-durable gce={} rotate={}", if gce == 1 { "1" } else { ">1" }, match rotate_every { 0 => "never", 1 => "every-entry", _ => "every-2nd" }),
+                    format!("{desc}: after the reply to command #{i} (`{line}`) a crash recovers updates of {:?} only; the update of {lost} is not among them", keys),
+                ));
+            }
+        }
+        Ok(images)
+    })
+}
+
 fn main() {
     let args = cli::parse_args();
     vh::quiet_panics();
     if let Some(path) = &args.replay {
         let r = vh::report::load_replay(path);
+        if r["node_wiring"] == json!(true) {
+            match node_wiring_case(r["gce"].as_u64().unwrap() as usize, r["rotate_every"].as_u64().unwrap() as usize, r["n"].as_u64().unwrap() as usize) {
+                Err((sig, detail)) => {
+                    println!("{detail}");
+                    println!("VIOLATION property=C09 replay={} ({sig})", path.display());
+                    std::process::exit(1);
+                }
+                Ok(_) => {
+                    println!("replay: no violation");
+                    std::process::exit(0);
+                }
+            }
+        }
         let sc = Scenario {
             gce: r["group_commit_max_entries"].as_u64().unwrap() as usize,
             rotate_every: r["rotate_every"].as_u64().unwrap() as usize,
@@ -366,7 +439,23 @@ fn main() {
     let distinct: u64 = results.iter().map(|r| r.1).sum();
     let truncated = results.iter().any(|r| r.0.truncated);
     let max_delay = results.iter().map(|r| r.0.max_used[1]).max().unwrap_or(0);
+    // the node's own wiring
+    let mut wiring_images = 0u64;
+    let mut wiring_cases = 0u64;
+    for gce in [1usize, 2, 8] {
+        for rotate_every in [1usize, 2, 0] {
+            for n in [1usize, 2, 3, 5, 9] {
+                wiring_cases += 1;
+                match std::panic::catch_unwind(|| node_wiring_case(gce, rotate_every, n)) {
+                    Ok(Ok(i)) => wiring_images += i,
+                    Ok(Err((sig, detail))) => rep.violation(sig, detail, json!({"node_wiring": true, "gce": gce, "rotate_every": rotate_every, "n": n})),
+                    Err(p) => rep.violation("node-wiring: panic".to_string(), vh::panic_text(&p), json!({"node_wiring": true, "gce": gce, "rotate_every": rotate_every, "n": n})),
+                }
+            }
+        }
+    }
     let coverage = json!({
+        "node_wiring": {"cases": wiring_cases, "crash_images_recovered": wiring_images, "rule": "a real ReplicatedShardedState with a real always-fsync WAL actor attached (set_wal_handle) executes 1..9 commands (SET / HSET / INCRBY / DEL) one after another under 9 group-commit x rotation configurations; at the instant each reply arrives a crash image (files cut to their last successful sync) is recovered: the update of that command and of every earlier one must be in it"},
         "evaluations": execs,
         "distinct_nontrivial": distinct,
         "rule": "scenario = (group_commit_max_entries in {1,2,8}) x (rotation after every entry / every 2nd / never) x (writer tasks with 1-2 sequential write_durable calls; also two writers racing with a graceful shutdown request) x fault plan (none; every single I/O-call index x {fail, partial append, disk full}; bursts of 2-4 consecutive calls hit by the same fault; thorough: all pairs for 2 writers); for each scenario every poll-level schedule of writers, the real WalActor and <=2 clock advances of group_commit_max_wait within the delay bound; an execution is non-trivial/distinct when its (I/O log, results, ack instants) differs from earlier ones of the scenario - for each such execution EVERY crash instant (I/O-log prefix, files cut to last successful sync) is recovered with the real WalRotator",
